@@ -5,6 +5,8 @@ def instances(tier):
     ns = [0, 1, 2, 3, 4, 5, 7, 8, 9, 12, 15, 16, 20] if tier == 'quick' else list(range(0, 25)) + [32, 40]   # 40 bits: ~10 min; the full range 0..48 did not finish in 13 min on 16 cores
     for n in ns:
         out.append((B, 'VH_C20_fift_roundtrip', [n], {'weight': n + 1}))
+    for n in ([1016, 1021, 1023] if tier == 'quick' else [256, 511, 512, 1000, 1016, 1017, 1018, 1019, 1020, 1021, 1022, 1023]):
+        out.append((B, 'VH_C20_fift_roundtrip_long', [n], {'weight': 40}))
     for L in ([0, 1, 2, 3, 4] if tier == 'quick' else [0, 1, 2, 3, 4, 5, 6]):
         out.append((B, 'VH_C20_fift_malformed', [L], {'weight': 2 ** L}))
     out += [(T, 'VH_C20_json_Uint16', [0], {'weight': 30}), (T, 'VH_C20_json_Uint16', [1], {'weight': 30}), (T, 'VH_C20_json_Int16', [], {'weight': 40}),
@@ -15,8 +17,8 @@ def instances(tier):
 CHECK = dict(
     id='C20', pkgs=['boc', 'tlb'], init_pkgs=['std:io', 'std:encoding/hex', 'std:strings', 'std:strconv', 'boc', 'tlb'], instances=instances,
     opts={'budget_s': 1500},
-    level_text='Hand-rolled JSON/text forms that stay inside the modelled library: boc.BitString Fift hex and its JSON form (every bit string of the stated lengths, incl. stale bits beyond the length, and arbitrary malformed text up to 4-6 characters: error or value, never a panic); generated integer types Uint16/Int16/Uint7 over their ENTIRE domain (print with %d, parse with strconv, quoted and unquoted); Magic (constructor tag, "0x%x" / ParseUint base 16) over all 2^32 values; MsgAddress standard-address text "<workchain>:<64 hex>" for every workchain -128..127 (account part fixed except one symbolic byte); Grams and SignedCoins for values of at most 3 (quick) / 5 (thorough) decimal digits of both signs.',
+    level_text='Hand-rolled JSON/text forms that stay inside the modelled library: boc.BitString Fift hex and its JSON form (every bit string of the stated lengths, incl. stale bits beyond the length, and arbitrary malformed text up to 4-6 characters: error or value, never a panic; the same round trip at the long end - 1016, 1021 and 1023 bits (quick) / twelve lengths from 256 to 1023 bits (thorough) - with a fixed pattern in the leading bytes and arbitrary last two bytes); generated integer types Uint16/Int16/Uint7 over their ENTIRE domain (print with %d, parse with strconv, quoted and unquoted); Magic (constructor tag, "0x%x" / ParseUint base 16) over all 2^32 values; MsgAddress standard-address text "<workchain>:<64 hex>" for every workchain -128..127 (account part fixed except one symbolic byte); Grams and SignedCoins for values of at most 3 (quick) / 5 (thorough) decimal digits of both signs.',
     level_note='encoding/json (reflection) is not modelled (json.Marshal of a plain string that needs no escaping is): Maybe, HashmapE, abi message bodies, tl.Int256, AccountID (json.Marshal of a string) are not covered; fmt.Sscanf users (Bits256, anycast text) are not covered; decimal text is modelled up to 5 digits (larger values are outside the explored domain, surfaced as an engine-limit VC when reachable).',
-    bounds={'quick': {'bit string lengths': [0, 1, 2, 3, 4, 5, 7, 8, 9, 12, 15, 16, 20], 'decimal digits': 5}, 'thorough': {'bit string lengths': '0..24, 32, 40'}},
+    bounds={'quick': {'bit string lengths': [0, 1, 2, 3, 4, 5, 7, 8, 9, 12, 15, 16, 20], 'long bit strings (2 symbolic bytes)': [1016, 1021, 1023], 'decimal digits': 5}, 'thorough': {'bit string lengths': '0..24, 32, 40', 'long bit strings (2 symbolic bytes)': [256, 511, 512, 1000, 1016, 1017, 1018, 1019, 1020, 1021, 1022, 1023]}},
     outside_claim=['everything routed through encoding/json reflection', 'fmt.Sscanf-based parsers', 'integers with more than 5 decimal digits', 'MsgAddress text forms other than AddrStd without anycast (AddrVar, AddrExtern, Anycast(..) use fmt.Sscanf)', 'Cell JSON (BOC base64 inside JSON)'],
 )
